@@ -27,7 +27,7 @@ VERIF_ERR = ("postcondition not satisfied", "precondition not satisfied", "invar
 
 
 def run_verus(path, rlimit=None, timeout=600):
-    cmd = ["verus", path, "--output-json", "--time-expanded", "--multiple-errors", "4"]
+    cmd = ["verus", path, "--output-json", "--time-expanded", "--multiple-errors", "12"]
     if rlimit:
         cmd += ["--rlimit", str(rlimit)]
     t0 = time.time()
@@ -139,6 +139,7 @@ def check_unit(spec_path, do_twins=True, keep=True):
         return res
     res["unit"] = u["unit"]
     res["properties"] = u["properties"]
+    res["panic_only"] = u.get("panic_only", [])
     res["title"] = u["title"]
     res["assumes"] = u.get("assumes", [])
     res["drops"] = u.get("drops", [])
